@@ -174,6 +174,54 @@ def seq_alloc_during_closeok(rep, rng):
     rep.case(('seq-alloc-during-closeok', max_ch, v), True, sample=replay)
 
 
+def seq_number_freed_only_after_handshake(rep, rng):
+    """a channel number becomes free (state CLOSED) only when its close handshake is complete on the wire:
+    (a) the broker closes a channel that has an error parked on it: the CloseOk must have been written;
+    (b) close() on a channel that is already CLOSING (another closer) must not send a second Channel.Close - it
+        would arrive after the number has been handed out again and close the new channel"""
+    import amqpstorm
+    from amqpstorm.channel import Channel
+    conn = amqpstorm.Connection('localhost', 'guest', 'guest', lazy=True)
+    conn.set_state(3)
+    written = []
+
+    def write_frame(cid, fr):
+        written.append((cid, fr.name))
+        if fr.name == 'Basic.Cancel':
+            conn._channels[cid].on_frame(spec.Basic.CancelOk(consumer_tag=fr.consumer_tag))
+    conn.write_frame = write_frame
+    # (a)
+    v = rng.randint(1, 5)
+    ch = Channel(v, conn, 1)
+    ch.set_state(3)
+    conn._channels[v] = ch
+    nerr = rng.randint(0, 2)
+    for k in range(nerr):
+        ch.exceptions.append(amqpstorm.AMQPMessageError('returned %d' % k, reply_code=312))
+    ch.on_frame(spec.Channel.Close(reply_code=404, reply_text='gone'))
+    replay = {'kind': 'seq-number-freed', 'case': 'broker-close', 'pending_errors': nerr, 'id': v}
+    if ch.is_closed and (v, 'Channel.CloseOk') not in written:
+        rep.violation('C10/number-freed-without-closeok', 'channel %d is CLOSED (its number can be handed out again) but no Channel.CloseOk '
+                      'was written (%d error(s) were parked on it)' % (v, nerr), replay)
+    rep.case(('seq-number-freed', 'a', nerr), nerr > 0, sample=replay)
+    # (b)
+    del written[:]
+    w = v + 1
+    ch2 = Channel(w, conn, 1)
+    ch2.set_state(rng.choice([1, 1, 2]))     # CLOSING (another thread is closing it) / OPENING
+    conn._channels[w] = ch2
+    state_before = ch2.current_state
+    try:
+        ch2.close()
+    except amqpstorm.AMQPError:
+        pass
+    replay = {'kind': 'seq-number-freed', 'case': 'second-closer', 'state': state_before, 'id': w}
+    if (w, 'Channel.Close') in written:
+        rep.violation('C10/stale-close-can-hit-reused-number', 'close() on channel %d in state %d (a close is already in progress) sent another '
+                      'Channel.Close: it reaches the broker after the number may have been given to a new channel' % (w, state_before), replay)
+    rep.case(('seq-number-freed', 'b', state_before), True, sample=replay)
+
+
 def cosim_one(args):
     sc, seed = args
     import amqpstorm
@@ -345,6 +393,7 @@ def check(rep):
     rep.count('seq', 'A', len(lines) // 2)
     for _ in range(20 if not thorough else 200):
         seq_alloc_during_closeok(rep, rng)
+        seq_number_freed_only_after_handshake(rep, rng)
     # ---- SEQ-B sequences ------------------------------------------------------------------------
     alphabet = [('open',), ('close', 0), ('close', 1), ('bclose', 0), ('bclose', 1)]
     maxlen = 5 if not thorough else 7
